@@ -272,8 +272,12 @@ def raw_packets(rng, cpay, p, n=None):
             out.append(('t', rng.choice(['0', '2', '2probe', '7', '8x', '9',
                                          '0{"sid":"x"}'])))
         else:
-            out.append(('t', rng.choice(['x', 'b!', '4', '41', '4null',
-                                         '4"s"', '4[1,2]', '4 1'])))
+            cpay.n += 1
+            n_ = cpay.n
+            out.append(('t', rng.choice([
+                'x', 'b!', '4', '4%d' % (1000 + n_), '4null',
+                '4"s%d"' % n_, '4[1,%d]' % n_, '4 %d' % n_,
+                '4%d.5' % n_, '4{"k":%d}' % n_])))
     return out
 
 
